@@ -28,6 +28,18 @@ def _to_literal(value):
         return value
 
 
+def _get_value_alignment(member):
+    """Alignment of the member's own type (member.alignment may be bumped to the alignment of its block)."""
+    node = member
+    while getattr(node, 'definition', None):
+        node = node.definition
+    if isinstance(node, (model.Struct, model.Union)):
+        return node.alignment
+    if isinstance(node, model.Enum):
+        return model.ENUM_SIZE
+    return model.BUILTIN_SIZES.get(node.type_name)
+
+
 class _Padder(object):
     PADDINGS = (
         (1, 'uint8_t'),
@@ -122,8 +134,9 @@ class _HppDefinitionsTranslator(TranslatorBase):
                 field = '{0} {1};\n'.format(typename, member.name)
             if member.optional:
                 flag = 'prophy::bool_t has_{0};\n'.format(member.name)
-                if member.alignment > model.DISC_SIZE:
-                    flag += padder.generate_padding(member.alignment - model.DISC_SIZE)
+                value_alignment = _get_value_alignment(member)
+                if value_alignment is not None and value_alignment > model.DISC_SIZE:
+                    flag += padder.generate_padding(value_alignment - model.DISC_SIZE)
                 field = flag + field
             if member.padding is not None and member.padding > 0:
                 field += padder.generate_padding(member.padding)
